@@ -1963,6 +1963,14 @@ class GattServer(GattLayer):
                         request.handle,
                         BleAttErrorCode.INVALID_ATTR_VALUE_LENGTH
                     )
+            else:
+                # Services, declarations and the other descriptors cannot be
+                # written by a client
+                self.error(
+                    BleAttOpcode.WRITE_REQUEST,
+                    request.handle,
+                    BleAttErrorCode.WRITE_NOT_PERMITTED
+                )
         except IndexError:
             self.error(
                 BleAttOpcode.WRITE_REQUEST,
